@@ -25,6 +25,10 @@ package verifharness
 //   block <addr>                                -> ok          declares an address the app's bank keeper blocks (checked)
 //   cc <sender|!> <receiver-raw> <denom> <amt>  -> ok|clean|err <codespace:code>|err basic|panic     MsgConvertCoin
 //   ce <contract-raw> <amt> <receiver|!> <sender-raw> <denom> -> (same)                              MsgConvertERC20
+//   ics <receiver|!> <base denom> <voucher> <amt> -> errack|kept|ok|clean|panic     an ICS-20 packet (token of the sending chain,
+//                                                  transfer/channel-0) through the app's transfer route = aggregate middleware
+//                                                  over the real transfer application, on a cache context written iff the
+//                                                  acknowledgement is nil or a success (ibc-go core RecvPacket); <voucher> is checked
 //   dump                                        -> E<0|1> T<contract>:<code>:<totalSupply>:<balances>:<pair> ... D<denom>:<supply>:<balances>:<pair addr>
 
 import (
@@ -41,6 +45,7 @@ import (
 	bankkeeper "github.com/cosmos/cosmos-sdk/x/bank/keeper"
 	banktypes "github.com/cosmos/cosmos-sdk/x/bank/types"
 	stakingtypes "github.com/cosmos/cosmos-sdk/x/staking/types"
+	porttypes "github.com/cosmos/ibc-go/v3/modules/core/05-port/types"
 	"github.com/ethereum/go-ethereum/common"
 	"github.com/ethereum/go-ethereum/crypto"
 	"github.com/tendermint/tendermint/crypto/tmhash"
@@ -90,6 +95,8 @@ type c11World struct {
 	module    common.Address
 	cur       *c11Snap // snapshot of the current state (nil = stale)
 	extra     string   // a denomination observed by the oracle although it is not part of the dumps
+	mw        porttypes.IBCModule // the app's ICS-20 route: aggregate middleware over the real transfer application
+	seq       uint64
 }
 
 func (w *c11World) current() *c11Snap {
@@ -861,6 +868,8 @@ func (w *c11World) apply(r *Rec, op string) string {
 			res, err := K.ConvertERC20(sdk.WrapSDKContext(ctx), msg)
 			return res == nil, err
 		})
+	case "ics":
+		return w.ics(r, f)
 	case "dump":
 		return w.current().text
 	}
